@@ -93,10 +93,13 @@ def _history(job):
         # balances and committed sums are doubles (decimal arithmetic re-rounded to a double after every operation): an excess
         # or a shortfall below the resolution of the compared balance cannot be represented, let alone decided
         res = 4 * math.ulp(max(float(mdl.base[sym]) if side == 'sell' else float(mdl.quote), 1e-300))
-        if 0 < abs(slack) <= res:
+        amount = abs(qty) if side == 'sell' else abs(qty) * price
+        if 0 < abs(slack) <= res or (slack == 0 and amount <= res):
+            # (slack 0 with an order that is itself smaller than the resolution of the balance: whether the re-rounded running
+            # sum of the resting sells plus such an amount lands on the balance or one double above it is not decidable either)
             band = True
             c('boundary_below_float_resolution')
-        if exact and slack == 0:
+        if exact and slack == 0 and not band:
             c('exact_boundary_cases')
         if side == 'sell' and cancelled_sell[sym]:
             c('sell_submits_after_cancelled_sell')
